@@ -248,6 +248,19 @@ pub fn generate(seed: u64, tier: &str, sink: &mut Sink) {
         // every accepted field is at least 8 bytes; (mh+1) lines of at most 16 bytes here
         run_endless("too-many-headers", w, mh, 17 + (mh + 2) * 16 + cap, sink, true);
     }
+    // the same with one legal name repeated (`Set-Cookie: v` for ever) and with a few names in rotation: every
+    // field line counts, whether or not its name was seen before
+    for mh in [0usize, 1, 10, 100] {
+        for distinct in [1usize, 3] {
+            let mut w = b"HTTP/1.1 200 OK\r\n".to_vec();
+            let mut i = 0;
+            while w.len() < endless_len {
+                w.extend_from_slice(format!("Set-Cookie{}: v{}\r\n", i % distinct, i % 7).as_bytes());
+                i += 1;
+            }
+            run_endless(if distinct == 1 { "too-many-headers-one-name" } else { "too-many-headers-few-names" }, w, mh, 17 + (mh + 2) * 18 + cap, sink, true);
+        }
+    }
     // the same with field names the client cannot represent (`x y3: v` — dropped, not stored):
     // they are header fields of the peer all the same and must run into max_headers
     for mh in [0usize, 1, 8, 100] {
